@@ -38,7 +38,10 @@ pub fn mask_for(prop: &str) -> Mask {
         "C06" => Mask { out: false, errs: "last", obs: "none", insp: false },
         "C07" => Mask { out: true, errs: "none", obs: "none", insp: false },
         "C18" => Mask { out: true, errs: "none", obs: "insp", insp: true },
-        // C08, C10, C11, C12, C13, C15, C16, C17: acceptance, outputs, errors
+        // memoization is judged against the memo-free grammar on the real crate (real_asserts);
+        // the model contributes acceptance and outputs
+        "C11" => Mask { out: true, errs: "none", obs: "none", insp: false },
+        // C08, C10, C12, C13, C15, C16, C17: acceptance, outputs, errors
         _ => Mask { out: true, errs: "all", obs: "none", insp: false },
     }
 }
@@ -91,6 +94,90 @@ pub fn proj_mask(m: &Mask, mode: &str, o: &J) -> J {
 
 pub fn proj(prop: &str, mode: &str, o: &J) -> J {
     proj_mask(&mask_for(prop), mode, o)
+}
+
+const OPS: &[&str] = &[
+    "just", "any", "oneof", "noneof", "sel", "end", "empty", "cust", "probe", "cfgjust", "then", "ithen", "theni", "delim", "padded", "group",
+    "grouparr", "or", "choice", "choicev", "ornot", "not", "andis", "rewind", "map", "to", "ignored", "filter", "trymap", "trymapw", "validate",
+    "mw", "tospan", "toslice", "boxed", "lazy", "collect", "exact", "run", "foldl", "foldr", "foldlw", "foldrw", "recover", "label", "maperr",
+    "memo", "rec", "ref", "withctx", "thenctx", "ignctx", "mapctx", "withstate", "nested", "tree", "pratt", "rep", "sep", "enum", "cfgrep",
+    "via", "skipuntil", "retry", "nesteddelim", "mws",
+];
+fn is_node(j: &J) -> bool {
+    j.as_array().and_then(|a| a.first()).and_then(|o| o.as_str()).map_or(false, |o| OPS.contains(&o))
+}
+fn node_op(j: &J) -> &str {
+    j[0].as_str().unwrap_or("")
+}
+/// rebuild a node with `f` applied to every child node (also inside child lists)
+fn map_kids(j: &J, f: &dyn Fn(&J) -> J) -> J {
+    match j {
+        J::Array(a) if is_node(j) => {
+            // a context value (withctx) is a value, not a grammar: leave it alone
+            let skip_val = node_op(j) == "withctx";
+            J::Array(
+                a.iter()
+                    .enumerate()
+                    .map(|(i, x)| {
+                        if i == 0 || (skip_val && i == 1) {
+                            x.clone()
+                        } else if is_node(x) {
+                            f(x)
+                        } else if let J::Array(xs) = x {
+                            if xs.iter().all(is_node) && !xs.is_empty() {
+                                J::Array(xs.iter().map(|y| f(y)).collect())
+                            } else {
+                                x.clone()
+                            }
+                        } else {
+                            x.clone()
+                        }
+                    })
+                    .collect(),
+            )
+        }
+        _ => j.clone(),
+    }
+}
+/// remove every node whose operator is in `ops` (memo / label / maperr), keeping its operand
+pub fn erase(j: &J, ops: &[&str]) -> J {
+    if is_node(j) && ops.contains(&node_op(j)) {
+        erase(&j[1], ops)
+    } else {
+        map_kids(j, &|k| erase(k, ops))
+    }
+}
+pub fn has_op(j: &J, ops: &[&str]) -> bool {
+    if !is_node(j) {
+        return match j {
+            J::Array(xs) => xs.iter().any(|x| has_op(x, ops)),
+            _ => false,
+        };
+    }
+    ops.contains(&node_op(j)) || j.as_array().unwrap().iter().skip(1).any(|x| has_op(x, ops))
+}
+/// substitute `rep` for the reference to the `depth`-th enclosing rec
+fn subst_ref(j: &J, depth: u64, rep: &J) -> J {
+    if is_node(j) {
+        match node_op(j) {
+            "ref" if j[1].as_u64() == Some(depth) => return rep.clone(),
+            "rec" => return json!(["rec", subst_ref(&j[1], depth + 1, rep)]),
+            _ => {}
+        }
+    }
+    map_kids(j, &|k| subst_ref(k, depth, rep))
+}
+/// expand every recursive definition k levels deep (C12); below that an always-failing parser
+pub fn unroll(j: &J, k: usize) -> J {
+    if is_node(j) && node_op(j) == "rec" {
+        let body = &j[1];
+        let mut u = json!(["cust", 0, false]);
+        for _ in 0..k {
+            u = subst_ref(body, 1, &u);
+        }
+        return unroll(&u, k);
+    }
+    map_kids(j, &|x| unroll(x, k))
 }
 
 pub struct ReplayStats {
@@ -159,6 +246,54 @@ fn real_asserts(prop: &str, case: &Case, real: &Obs, all: &dyn Fn(&str, &str, &s
             }
             if spans.windows(2).any(|w| (w[0].1, w[0].2) != (w[1].1, w[1].2)) {
                 return Some(format!("error types disagree on the span: {:?}", spans));
+            }
+            None
+        }
+        "C11" | "C17" | "C12" => {
+            if real.panic.is_some() {
+                return None;
+            }
+            // the decorated / recursive grammar against its erasure / unrolling, both on the real crate
+            let plain = match prop {
+                "C11" => {
+                    if !has_op(&case.gj, &["memo"]) || has_op(&case.gj, &["rec"]) {
+                        return None;
+                    }
+                    erase(&case.gj, &["memo"])
+                }
+                "C17" => {
+                    if !has_op(&case.gj, &["label", "maperr"]) {
+                        return None;
+                    }
+                    erase(&case.gj, &["label", "maperr"])
+                }
+                _ => {
+                    if !has_op(&case.gj, &["rec"]) || has_op(&case.gj, &["memo"]) {
+                        return None;
+                    }
+                    unroll(&case.gj, case.inp.len() + 1)
+                }
+            };
+            let mut cj = case.to_json();
+            cj["g"] = plain.clone();
+            let pc = Case::from_json(&cj).ok()?;
+            let po = run_case_as(&pc, &case.kind, &case.ety, &case.mode).ok()?;
+            if po.panic.is_some() {
+                return None;
+            }
+            if po.ok != real.ok {
+                return Some(format!("acceptance differs from the plain grammar {plain}: {} vs {}", real.ok, po.ok));
+            }
+            if po.out != real.out {
+                return Some(format!("output differs from the plain grammar {plain}: {} vs {}", real.out, po.out));
+            }
+            if prop == "C17" {
+                let spans = |o: &Obs| o.errs.iter().map(|e| (e.s, e.e)).collect::<Vec<_>>();
+                if spans(&po) != spans(real) {
+                    return Some(format!("error count/spans differ from the undecorated grammar {plain}: {:?} vs {:?}", spans(real), spans(&po)));
+                }
+            } else if po.errs != real.errs {
+                return Some(format!("errors differ from the plain grammar {plain}: {:?} vs {:?}", real.errs, po.errs));
             }
             None
         }
